@@ -1,3 +1,96 @@
 package main
 
-func extractMore(pkgs map[string]*Pkg) {}
+import (
+	"go/ast"
+	"go/types"
+	"sort"
+)
+
+// switchTable extracts (case constant value, name of the composite literal
+// type assigned in the case body) from the first `switch <tag>` statement of
+// function fn whose tag prints as tagName.
+func (p *Pkg) switchTable(name, fn, tagName string) {
+	fd := p.funcDecl(fn)
+	if fd == nil {
+		miss(name)
+		return
+	}
+	var rows [][2]any
+	found := false
+	ast.Inspect(fd, func(n ast.Node) bool {
+		sw, ok := n.(*ast.SwitchStmt)
+		if !ok || found || sw.Tag == nil || types.ExprString(sw.Tag) != tagName {
+			return true
+		}
+		found = true
+		for _, st := range sw.Body.List {
+			cc := st.(*ast.CaseClause)
+			typ := ""
+			ast.Inspect(cc, func(m ast.Node) bool {
+				if cl, ok := m.(*ast.CompositeLit); ok && typ == "" {
+					typ = types.ExprString(cl.Type)
+				}
+				return true
+			})
+			if cc.List == nil {
+				rows = append(rows, [2]any{int64(65536), typ}) // default, marked by 65536
+				continue
+			}
+			for _, e := range cc.List {
+				if v, ok := p.constVal(e); ok {
+					rows = append(rows, [2]any{v, typ})
+				}
+			}
+		}
+		return false
+	})
+	if !found {
+		miss(name)
+		return
+	}
+	sort.SliceStable(rows, func(i, j int) bool { return rows[i][0].(int64) < rows[j][0].(int64) })
+	facts.Tables[name] = rows
+}
+
+func extractMore(pkgs map[string]*Pkg) {
+	extractLabel(pkgs[mod+"/rfc1035label"])
+	extractServer(pkgs)
+	extractV4Acc(pkgs[mod+"/dhcpv4"])
+	extractRaw(pkgs[mod+"/dhcpv4/nclient4"])
+	if p := pkgs[mod+"/dhcpv6"]; p != nil {
+		p.switchTable("parseOptionTable", "ParseOption", "code")
+		p.switchTable("ntpSuboptionTable", "parseNTPSuboption", "code")
+		p.switchTable("duidTable", "DUIDFromBytes", "typ")
+		p.factConst("relayHeaderSize", "RelayHeaderSize")
+		p.factConst("msgTypeRelayForward", "MessageTypeRelayForward")
+		p.factConst("msgTypeRelayReply", "MessageTypeRelayReply")
+		p.factCmp("iaprefixMaxLen", "OptIAPrefix.FromBytes", "length")
+		p.factCallArg("optsLoopHas6", "Options.FromBytesWithParser", "buf.Has")
+	} else {
+		miss("pkg_dhcpv6")
+	}
+}
+
+// factCallArg records the constant first argument of the first call to callee inside fn.
+func (p *Pkg) factCallArg(name, fn, callee string) {
+	fd := p.funcDecl(fn)
+	if fd == nil {
+		miss(name)
+		return
+	}
+	found := false
+	ast.Inspect(fd, func(n ast.Node) bool {
+		ce, ok := n.(*ast.CallExpr)
+		if !ok || found || types.ExprString(ce.Fun) != callee || len(ce.Args) == 0 {
+			return true
+		}
+		if v, ok := p.constVal(ce.Args[0]); ok {
+			facts.Nat[name] = v
+			found = true
+		}
+		return true
+	})
+	if !found {
+		miss(name)
+	}
+}
